@@ -28,6 +28,18 @@ Release(apt-ftparchive), Release(dak):
                  the same executor and oracle as S; on top, its dump() must be the text the str form dumps, and dump(fd) to a
                  binary and to a text file object must write exactly that text.
 
+  B  "other routes": for every class configuration (and Sources, the sub-class of Dsc) x 3 field subsets x 1-3 records per
+                 field: the records reach the paragraph another way (update, setdefault, records as Deb822Dict objects, the
+                 record list of another parsed paragraph, integer sizes, assigned twice, after a dump refused for a newline
+                 in a component), the text is read with fields= (constructor by keyword / positionally, iter_paragraphs; every
+                 structured field is in the text, the subset is what fields= names - also a direction of S for every
+                 subset), Release.size_field_behavior is set by the method, then refused values are tried, after the other value,
+                 before the fields exist.  Each goes through the executor and oracle of S; on top the dump is taken the
+                 other ways (dump() again, str, bytes, dump(fd) with keywords, the restricted wrapper; a text that differs
+                 from dump() is held to the statement on its own), get_as_string(field) in three spellings must be the
+                 field's block of the dump, and the records are read the other ways (get, other spellings of the name,
+                 items / values of the paragraph; items / get / values / dict() of a record).
+
 Every S/R input is run in several directions: built through the API (assign a list of dicts / a single mapping) or
 parsed from text (tight, column-aligned, first record on the header line, single-line, and for pdiff the natural
 form with single-line *-Current fields).
@@ -54,7 +66,10 @@ RULE = ("inputs = (class configuration, set of structured fields present, record
         "(construct, dump, edit, dump, ... , dump twice) replayed from scratch on the real class; every prefix of a history "
         "is a case of its own, so only the last dump of a history is compared; non-trivial = at least one edit.  Family F: "
         "one more choice below (class, subset, record count): the form in which the text reaches the constructor; one state / "
-        "transition / trace per (paragraph, form), non-trivial by the S rule")
+        "transition / trace per (paragraph, form), non-trivial by the S rule.  Family B: one more choice below (class, "
+        "subset, record count): the route by which the records / the text / the behaviour reach the paragraph; one state / "
+        "transition / trace per (paragraph, route), followed by the other dump and read routes (evaluations); non-trivial "
+        "by the S rule")
 BUDGET = {"quick": 240, "thorough": 3000}
 
 # ---- the documented sub-field names (display spelling of the field, sub-field names in line order)
@@ -78,6 +93,8 @@ for _h in ("SHA1", "SHA256"):
         else:
             _name = "%s-%s" % (_h, _role)
         TABLE["PdiffIndex"].append((_name, [_h, "size"] + ([_third] if _third else [])))
+
+TABLE["Sources"] = TABLE["Dsc"]          # a Sources paragraph is a Dsc paragraph (sub-class, same structured fields): family B only
 
 CONFIGS = [("Dsc", None), ("Changes", None), ("BuildInfo", None), ("PdiffIndex", None),
            ("Release", "apt-ftparchive"), ("Release", "dak")]
@@ -124,6 +141,16 @@ def bounds(tier):
                               "behaviours": "each Release left alone / dak / apt-ftparchive", "orders": I_ORDERS,
                               "directions": ["assign-list", "text-multi"],
                               "checked": "three dumps (object A, B, A resp. B, A, B), each as for that object alone"},
+            "B_other_routes": {"class_configurations": [cfg_name(*c) for c in B_CONFIGS],
+                               "paragraphs": "field subsets {first field; all; fields 2 and 4 (pdiff: SHA1-History; all 14; SHA1-Current "
+                                             "+ SHA256-Patches + X-Unmerged-SHA256-Download)} x 1, 2, 3 records per field",
+                               "build_routes": B_BUILD, "parse_routes": B_PARSE,
+                               "behavior_routes": "Release configurations x {assign-list, text-multi} x %s" % B_SET_BEH,
+                               "dump_routes": DUMP_ROUTES, "get_as_string": "stored, lower-case and upper-case spelling of the field name",
+                               "read_routes": READ_ROUTES, "record_read_routes (parsed paragraphs)": RECORD_READ_ROUTES,
+                               "cases": sum(len(b_cases(c, b, 0)) for c, b in B_CONFIGS)},
+            "S_filtered": "every non-empty subset with 2 records per field is also read from a text that holds every structured "
+                          "field of the class, with fields= naming the subset",
             "tokens": "a, bb, x/y.z, e-acute (seed rotates representatives)", "sizes": "1, 22, 17 digits"}
 
 
@@ -143,6 +170,13 @@ def assumptions():
             "re-parsed records are compared as records: a single-line field re-read as one mapping counts as the list of that one record",
             "seed rotates token representatives and the spelling (case) of the field names; both are equivalent for a "
             "case-insensitive, whitespace-splitting implementation",
+            "family B: a Sources paragraph is a Dsc paragraph (sub-class with the same table), held to the Dsc clauses; "
+            "integer sizes are written with str() by the class (get_as_string), so a record built with size 12 must re-parse "
+            "to size '12'; records handed in as plain dicts are compared without regard to the key order they were given "
+            "(the line order comes from the class table); a dump refused with ValueError for a newline inside a component "
+            "is the documented guard - after the component is repaired the dump must be right; fields= is compared with "
+            "the spelling the text uses (the filter is case-sensitive by construction); size_field_behavior values other "
+            "than the two documented ones are refused with ValueError and must leave the behaviour as it was",
             "family F: the forms are the input kinds the Deb822 constructor documents (str, bytes, any iterable of str or "
             "bytes lines, file objects; encoding= for bytes input).  'lines without newline' are the text split at '\\n'.  With "
             "encoding=E the bytes are the text encoded in E and dump(fd) in binary mode must write the text encoded in E (the "
@@ -259,6 +293,8 @@ def units(tier, seed):
     for cname, beh in CONFIGS:
         out.append({"family": "F", "cls": cname, "beh": beh})
     out.append({"family": "I", "cls": "Release", "beh": None})
+    for cname, beh in B_CONFIGS:
+        out.append({"family": "B", "cls": cname, "beh": beh})
     return out
 
 
@@ -271,6 +307,8 @@ def unit_cost(u, tier):
         return 6 * len(FORMS) * 40
     if u["family"] == "I":
         return len(i_plans()) * 2 * 40
+    if u["family"] == "B":
+        return 9 * (len(B_BUILD) + len(B_PARSE) + 8) * (140 if u["cls"] == "PdiffIndex" else 60)
     nsub = len(TABLE[u["cls"]][u["field"]][1])
     return {1: 3 * 4 ** (nsub - 1), 2: 144 if tier == "quick" else 576, 3: 216 if tier == "quick" else 13824,
             4: 1296}[u["length"]] * 5
@@ -505,6 +543,181 @@ def form_bases(cname, seed):
     return out
 
 
+# ---- family B: the other routes.  The same records reach the paragraph another way (B_BUILD), the same text is read with
+# fields= (B_PARSE), Release.size_field_behavior is set another way (B_SET_BEH); and for every B case the dump is also taken
+# the other ways and the records are also read the other ways (route_checks).
+B_BUILD = ["assign-list", "assign-update", "assign-setdefault", "assign-records-deb822dict", "assign-from-parsed",
+           "assign-int-sizes", "assign-twice", "after-refused-dump"]
+B_PARSE = ["text-multi", "text-filtered", "text-filtered-iter", "text-filtered-positional"]
+B_SET_BEH = ["method", "refused-value-afterwards", "other-value-first", "before-the-fields"]
+B_CONFIGS = CONFIGS + [("Sources", None)]
+DUMP_ROUTES = ["dump-again", "str", "bytes", "dump-fd-bytes", "dump-fd-text", "wrapper-dump", "wrapper-dump-fd"]
+READ_ROUTES = ["get", "lower-case-name", "upper-case-name", "items", "values", "setdefault-present"]
+RECORD_READ_ROUTES = ["items", "get", "dict()", "values", "iteration-and-len"]
+
+
+def b_bases(cname, seed):
+    """family B: (field subset, record count) pairs of one class -> list of (fields, all_fields)"""
+    table = TABLE[cname]
+    n = len(table)
+    subsets = [[1], list(range(n)), [0, 9, 13]] if cname == "PdiffIndex" else [[0], list(range(n)), [1, 3]]
+    out = []
+    for sub in subsets:
+        for nrec in (1, 2, 3):
+            def mk(fi):
+                return [spell(table[fi][0], seed), table[fi][1], rotating_records(len(table[fi][1]), fi, nrec, seed)]
+            out.append(([mk(fi) for fi in sub], [mk(fi) for fi in range(n)]))
+    return out
+
+
+def b_cases(cname, beh, seed):
+    out = []
+    for fields, allf in b_bases(cname, seed):
+        for d in B_BUILD + B_PARSE:
+            case = {"family": "B", "cls": cname, "beh": beh, "dir": d, "fields": fields, "routes": True}
+            if d.startswith("text-filtered"):
+                case["all_fields"] = allf
+            out.append(case)
+        if beh is not None:
+            for sb in B_SET_BEH:
+                for d in ("assign-list", "text-multi"):
+                    if sb == "before-the-fields" and d != "assign-list":
+                        continue        # a parsed paragraph has its fields from the start
+                    out.append({"family": "B", "cls": cname, "beh": beh, "dir": d, "fields": fields, "routes": True, "set_beh": sb})
+    return out
+
+
+def set_behavior(p, beh, how):
+    if how == "method":
+        p.set_size_field_behavior(beh)
+    elif how == "refused-value-afterwards":
+        p.size_field_behavior = beh
+        for wrong in ("DAK", "", None):
+            try:
+                p.size_field_behavior = wrong
+            except ValueError:
+                pass            # refused: the behaviour set before must still be in force
+    elif how == "other-value-first":
+        p.size_field_behavior = "dak" if beh == "apt-ftparchive" else "apt-ftparchive"
+        p.dump()
+        p.size_field_behavior = beh
+    else:
+        p.size_field_behavior = beh
+
+
+def _pairs(r):
+    return [(k, r[k]) for k in r.keys()]
+
+
+def route_checks(p, case, fields, single, text, cfg):
+    """the other ways of dumping paragraph `p` (whose dump() is `text`) and of reading its records
+    -> (list of (sig, expected, observed), evaluations)"""
+    from debian import deb822
+    cname, beh = case["cls"], case["beh"]
+    parsed = case["dir"].startswith("text-")
+    bad = []
+    ev = 0
+    for rn in DUMP_ROUTES:
+        ev += 1
+        try:
+            if rn == "dump-again":
+                t2 = p.dump()
+            elif rn == "str":
+                t2 = str(p)
+            elif rn == "bytes":
+                t2 = bytes(p).decode("utf-8")
+            elif rn == "wrapper-dump":
+                t2 = deb822.RestrictedWrapper(p).dump()
+            else:
+                fd = io.StringIO() if rn == "dump-fd-text" else io.BytesIO()
+                if rn == "dump-fd-text":
+                    r = p.dump(fd, text_mode=True)
+                elif rn == "dump-fd-bytes":
+                    r = p.dump(fd=fd, encoding="utf-8")
+                else:
+                    r = deb822.RestrictedWrapper(p).dump(fd)
+                t2 = fd.getvalue() if rn == "dump-fd-text" else fd.getvalue().decode("utf-8")
+                if r is not None:
+                    bad.append(("mv/%s/via-%s/returns" % (cfg, rn), None, r))
+        except Exception as e:
+            bad.append(("mv/%s/via-%s/raises/%s" % (cfg, rn, type(e).__name__), "the text of dump()", _exc(e)))
+            continue
+        if t2 != text:
+            # another text than dump(): it is held to the statement on its own
+            b2, n2 = check_text(cname, beh, fields, single, t2, "via-%s/" % rn)
+            ev += n2
+            bad += b2
+    # the per-field formatter under every spelling of the name: the field's block of the dump
+    for nm, _s, _recs in fields:
+        for sp in (nm, nm.lower(), nm.upper()):
+            ev += 1
+            try:
+                v = p.get_as_string(sp)
+            except Exception as e:
+                bad.append(("mv/%s/via-get_as_string/raises/%s" % (cfg, type(e).__name__), "the field's text", _exc(e)))
+                continue
+            block = "\n%s:%s%s\n" % (nm, "" if (not v or v.startswith("\n")) else " ", v)
+            nxt = ("\n" + text).find(block)
+            if nxt < 0 or ("\n" + text)[nxt + len(block):nxt + len(block) + 1] == " ":
+                bad.append(("mv/%s/via-get_as_string/not-the-block-of-dump" % cfg, text, "get_as_string(%r) = %r" % (sp, v)))
+    # the other ways of reading a structured field and a record
+    want = dict((n, [[(k, str(x)) for k, x in zip(s_, r)] for r in recs]) for n, s_, recs in fields)
+    stored = dict((k.lower(), k) for k in p.keys())
+    index = dict((k.lower(), i) for i, k in enumerate(p.keys()))
+    for nm, s_, _recs in fields:
+        for rn in READ_ROUTES:
+            ev += 1
+            try:
+                if rn == "get":
+                    v = p.get(nm)
+                elif rn == "lower-case-name":
+                    v = p[nm.lower()]
+                elif rn == "upper-case-name":
+                    v = p[nm.upper()]
+                elif rn == "items":
+                    v = dict(p.items())[stored[nm.lower()]]
+                elif rn == "values":
+                    v = list(p.values())[index[nm.lower()]]
+                else:
+                    v = p.setdefault(nm, "unused")
+                _shape, got = records_of(v)
+                got = [[(k, str(x)) for k, x in r] for r in got]
+                if not parsed:      # records handed in as plain dicts keep the key order they were given
+                    got = [sorted(r, key=lambda kv: s_.index(kv[0]) if kv[0] in s_ else -1) for r in got]
+            except Exception as e:
+                bad.append(("mv/%s/read-via-%s/raises/%s" % (cfg, rn, type(e).__name__), want[nm], _exc(e)))
+                continue
+            if got != want[nm]:
+                bad.append(("mv/%s/read-via-%s/records" % (cfg, rn), want[nm], got))
+        if not parsed:
+            continue
+        try:
+            v = p[nm]
+            recs_now = [v] if hasattr(v, "keys") else list(v)
+        except Exception as e:
+            bad.append(("mv/%s/record-read/raises/%s" % (cfg, type(e).__name__), want[nm], _exc(e)))
+            continue
+        for rn in RECORD_READ_ROUTES:
+            ev += 1
+            try:
+                if rn == "items":
+                    got = [list(r.items()) for r in recs_now]
+                elif rn == "get":
+                    got = [[(k, r.get(k, "absent")) for k in r.keys()] for r in recs_now]
+                elif rn == "dict()":
+                    got = [list(dict(r).items()) for r in recs_now]
+                elif rn == "values":
+                    got = [list(zip(r.keys(), r.values())) for r in recs_now]
+                else:
+                    got = [[(k, r[k]) for k in r if k in r] if len(r) == len(s_) else "len() = %d" % len(r) for r in recs_now]
+            except Exception as e:
+                bad.append(("mv/%s/record-read-via-%s/raises/%s" % (cfg, rn, type(e).__name__), want[nm], _exc(e)))
+                continue
+            if got != want[nm]:
+                bad.append(("mv/%s/record-read-via-%s/records" % (cfg, rn), want[nm], got))
+    return bad, ev
+
+
 def exec_case(case, stats=None):
     """-> list of (sig, expected, observed).  stats: optional Counter receiving outcome classes."""
     cname, beh = case["cls"], case["beh"]
@@ -523,6 +736,8 @@ def exec_case(case, stats=None):
         if stats is not None:
             if form:
                 stats["input form %s (all class configurations): %s" % (form, k)] += 1
+            elif case.get("family") == "B":
+                stats["route %s%s (all class configurations): %s" % (d, " + behaviour set " + case["set_beh"] if case.get("set_beh") else "", k)] += 1
             else:
                 stats["%s %s: %s" % (cfg, d, k)] += 1
 
@@ -531,21 +746,68 @@ def exec_case(case, stats=None):
             stats["__evaluations__"] += evals[0]
         if form:        # a failure that needs this form is a different bug: it gets its own signature
             bad = [(b[0].replace("mv/%s/" % cfg, "mv/%s/in-%s/" % (cfg, form), 1),) + tuple(b[1:]) for b in bad]
+        if case.get("family") == "B":       # ... and so is one that needs this route
+            how = d + ("+behavior-" + case["set_beh"] if case.get("set_beh") else "")
+            bad = [(b[0].replace("mv/%s/" % cfg, "mv/%s/by-%s/" % (cfg, how), 1),) + tuple(b[1:]) for b in bad]
         return bad
 
     # ---- 1. construct
+    set_beh = case.get("set_beh")
     try:
-        if d.startswith("text-"):
+        if d.startswith("text-filtered"):
+            # every structured field of the class is in the text; fields= names the ones of the case
+            text_in = make_text(dict(case, fields=case["all_fields"], dir="text-multi"))
+            flt = ["Origin"] + [n for n, _s, _r in fields] + ["Label"]
+            if d == "text-filtered":
+                p = cls(text_in, fields=list(flt))
+            elif d == "text-filtered-positional":
+                p = cls(text_in.splitlines(True), list(flt))
+            else:
+                with warnings.catch_warnings():
+                    warnings.simplefilter("ignore")
+                    ps = list(cls.iter_paragraphs(text_in + "\nOrigin: second paragraph\nLabel: z\n", fields=list(flt)))
+                if len(ps) != 2 or type(ps[0]) is not cls or list(ps[1].items()) != [("Origin", "second paragraph"), ("Label", "z")]:
+                    raise ValueError("iter_paragraphs(fields=...) gave %r" % (ps,))
+                p = ps[0]
+        elif d.startswith("text-"):
             p = construct(cls, make_text(case), form)
         else:
+            from debian.deb822 import Deb822Dict
             p = cls({"Origin": "x"})
+            if set_beh == "before-the-fields":
+                p.size_field_behavior = beh
             for n, s, recs in fields:
                 # sub-fields are inserted in reverse so that only the class table can give the line order
                 dicts = [dict(reversed(list(zip(s, r)))) for r in recs]
-                p[n] = dicts[0] if d == "assign-mapping" else dicts
+                if d == "assign-mapping":
+                    p[n] = dicts[0]
+                elif d == "assign-update":
+                    p.update({n: dicts})
+                elif d == "assign-setdefault":
+                    p.setdefault(n, dicts)
+                elif d == "assign-records-deb822dict":
+                    p[n] = [Deb822Dict(list(reversed(list(zip(s, r))))) for r in recs]
+                elif d == "assign-from-parsed":
+                    p[n] = cls(make_text(dict(case, dir="text-multi")))[n]
+                elif d == "assign-int-sizes":
+                    p[n] = [dict(x, size=int(x["size"])) for x in dicts]
+                elif d == "assign-twice":
+                    p[n] = [dict((k, v + "0") for k, v in x.items()) for x in dicts[:1]]
+                    p.dump()
+                    p[n] = dicts
+                elif d == "after-refused-dump":
+                    p[n] = [dict(x) for x in dicts]
+                    p[n][-1][s[-1]] = dicts[-1][s[-1]] + "\nInjected: 1"
+                    try:
+                        p.dump()
+                    except ValueError:
+                        pass
+                    p[n][-1][s[-1]] = dicts[-1][s[-1]]
+                else:
+                    p[n] = dicts
             p["Label"] = "y"
-        if beh is not None:
-            p.size_field_behavior = beh
+        if beh is not None and set_beh != "before-the-fields":
+            set_behavior(p, beh, set_beh)
     except Exception as e:
         note("construct raises " + type(e).__name__)
         return finish([("mv/%s/construct/raises/%s" % (cfg, type(e).__name__), "no exception", _exc(e))])
@@ -589,6 +851,9 @@ def exec_case(case, stats=None):
     # ---- 4./5. re-parse gives the same records in the same order; the size column
     bad, n = check_text(cname, beh, fields, single, text)
     evals[0] += n
+    if case.get("routes") and not bad:
+        bad, n = route_checks(p, case, fields, single, text, cfg)
+        evals[0] += n
     if form and not bad:
         # ---- 6. (family F) the way the text came in / the dump goes out makes no difference: the paragraph dumps to the very
         # text that the plain-str form dumps to, whether dump() returns it or writes it to a binary / text file object
@@ -1018,6 +1283,13 @@ def run_unit(u, tier, seed):
                         part.extra["H edit " + op[0]] += 1
                     part.max_depth = max(part.max_depth, len(ops))
             part.sample(case)
+    elif u["family"] == "B":
+        for case in b_cases(cname, beh, seed):
+            run(case)
+            part.extra["B cases"] += 1
+            part.extra["B route " + case["dir"] + (" + behaviour set " + case["set_beh"] if case.get("set_beh") else "")] += 1
+            part.max_depth = max(part.max_depth, len(case["fields"]))
+        part.sample(case)
     elif u["family"] == "F":
         for d, fields in form_bases(cname, seed):
             part.states += 1
@@ -1044,11 +1316,16 @@ def run_unit(u, tier, seed):
                     dirs += DIRS_ONE
                 if cname == "PdiffIndex" and any(len(table[fi][1]) == 2 for fi in sub) and nrec > 1:
                     dirs.append("text-natural")
+                if nrec == 2 and sub:
+                    dirs.append("text-filtered")     # the subset is what fields= lets through of a text holding every field
                 for d in dirs:
                     fs = fields
                     if d == "text-natural":
                         fs = [[n, s, recs[:1] if len(s) == 2 else recs] for n, s, recs in fields]
                     case = {"family": "S", "cls": cname, "beh": beh, "dir": d, "fields": fs}
+                    if d == "text-filtered":
+                        case["all_fields"] = [[spell(table[fi][0], seed), table[fi][1],
+                                               rotating_records(len(table[fi][1]), fi + shift, nrec, seed)] for fi in range(len(table))]
                     run(case)
                     part.extra["S cases"] += 1
             if len(sub) in (0, 2, len(table)):
